@@ -105,6 +105,7 @@ def register(reg):
         return res
     _register_defaults_rule(reg)
     _register_alias_redirect(reg)
+    _register_default_redirect(reg)
 
 
 def _register_defaults_rule(reg):
@@ -142,4 +143,77 @@ def _register_alias_redirect(reg):
         ensures=["result == uf_build_ext(endpoint, values, method) + (('?' + query_args) if len(query_args) > 0 else '')",
                  "result != path"],
         raises={"AssertionError": "uf_build_ext(endpoint, values, method) + (('?' + query_args) if len(query_args) > 0 else '') == path"},
+    )
+
+
+def _register_default_redirect(reg):
+    """MapAdapter.get_default_redirect (body; call sites use the summary in c03_match).  Rules are abstract objects
+    (identity, endpoint, defaults; provides_defaults_for / suitable_for / build as uninterpreted functions of the rule): what
+    is proved is the search -- the redirect is built by the FIRST rule in front of the matched one that provides defaults for
+    it and is suitable for the matched values, from those values with that rule's defaults merged in, through
+    make_redirect_url (bound scheme / host / script root, the caller's query string); no such rule: no redirect."""
+    import z3
+    from pyvc.values import VBool, VBuiltin, VOpaque, VStr, VTuple, opaque_sort, StrS, BoolS
+    RS, VS, DS = opaque_sort("rule"), opaque_sort("values"), opaque_sort("defaults")
+    R_EP = z3.Function("rule_endpoint", RS, StrS)
+    R_DEF = z3.Function("rule_defaults", RS, DS)
+    reg.ufunc("r_pdf", ["opaque:rule", "opaque:rule"], "bool")
+    reg.ufunc("r_suit", ["opaque:rule", "opaque:values", "str"], "bool")
+    reg.ufunc("r_bdom", ["opaque:rule", "opaque:values"], "str")
+    reg.ufunc("r_bpath", ["opaque:rule", "opaque:values"], "str")
+    reg.ufunc("v_merge", ["opaque:values", "opaque:defaults"], "opaque:values")
+    reg.ufunc("r_defaults", ["opaque:rule"], "opaque:defaults")
+    reg.ufunc("r_endpoint", ["opaque:rule"], "str")
+    ev = lambda it, name, args: it.call(reg.spec_names[name], args, {}, None)  # noqa: E731
+    reg.overrides["opaque:rule.endpoint"] = lambda it, o, n: ev(it, "r_endpoint", [o])
+    reg.overrides["opaque:rule.defaults"] = lambda it, o, n: ev(it, "r_defaults", [o])
+    reg.overrides["opaque:rule.provides_defaults_for"] = lambda it, o, n: VBuiltin(
+        "rule.provides_defaults_for", lambda it2, a, k, nn: ev(it2, "r_pdf", [o, it2.need(a[0])]))
+    reg.overrides["opaque:rule.suitable_for"] = lambda it, o, n: VBuiltin(
+        "rule.suitable_for", lambda it2, a, k, nn: ev(it2, "r_suit", [o, it2.need(a[0]).fields["v"], it2.need(a[1])]))
+    reg.overrides["opaque:rule.build"] = lambda it, o, n: VBuiltin(
+        "rule.build", lambda it2, a, k, nn: VTuple([ev(it2, "r_bdom", [o, it2.need(a[0]).fields["v"]]),
+                                                    ev(it2, "r_bpath", [o, it2.need(a[0]).fields["v"]])]))
+    Vals = reg.model("MatchedValues", fields={"v": "opaque:values"})
+    reg.contract("model:MatchedValues.update", prop="C12", trusted=True, param_names=["self", "d"], modifies=["self.v"],
+                 ensures=["self.v == v_merge(old(self.v), d)"], note="dict.update of the matched values with a rule's defaults")
+    MapD = reg.model("MapD", fields={"host_matching": "bool", "redirect_defaults": "bool",
+                                     "_rules_by_endpoint": "Dict[str, List[opaque:rule]]"})
+    AdD = reg.model("MapAdapterD", cls="werkzeug/routing/map.py:MapAdapter",
+                    fields={"map": MapD, "server_name": "str", "script_name": "str", "subdomain": "Optional[str]",
+                            "url_scheme": "str", "query_args": "Optional[str]", "g_j": "int"})
+    reg.spec("rules_of(self, rule)", "self.map._rules_by_endpoint[r_endpoint(rule)]")
+    reg.spec("takes(r, rule, v, method)", "r_pdf(r, rule) and r_suit(r, v, method)")
+    reg.contract(
+        "werkzeug/routing/map.py:MapAdapter.get_default_redirect#verify", prop="C12", self_model=AdD,
+        params={"rule": "opaque:rule", "method": "str", "values": Vals, "query_args": "str"}, returns="Optional[str]",
+        modifies=["values.v", "self.g_j"],
+        assumes=["self.map.redirect_defaults", "r_endpoint(rule) in self.map._rules_by_endpoint", "self.g_j == -1"],
+        ghost_after={"values.update(r.defaults)": ["self.g_j = _i"]},
+        ensures=[
+            # no redirect: no rule in front of the matched one takes over
+            "implies(result is None, self.g_j == -1 and values.v == old(values.v) and "
+            "        exists(0, len(rules_of(self, rule)) + 1, lambda s: "
+            "               (s == len(rules_of(self, rule)) or rules_of(self, rule)[s] == rule) and "
+            "               forall(0, s, lambda j: rules_of(self, rule)[j] != rule and "
+            "                      not takes(rules_of(self, rule)[j], rule, old(values.v), method))))",
+            # a redirect: built by the first rule that takes over, in front of the matched one ...
+            "implies(result is not None, 0 <= self.g_j and self.g_j < len(rules_of(self, rule)) and "
+            "        takes(rules_of(self, rule)[self.g_j], rule, old(values.v), method) and "
+            "        forall(0, self.g_j + 1, lambda j: rules_of(self, rule)[j] != rule) and "
+            "        forall(0, self.g_j, lambda j: not takes(rules_of(self, rule)[j], rule, old(values.v), method)))",
+            # ... from the matched values plus that rule's defaults ...
+            "implies(result is not None, values.v == v_merge(old(values.v), r_defaults(rules_of(self, rule)[self.g_j])))",
+            # ... as a URL on the bound scheme / host / script root with the caller's query string
+            "implies(result is not None and len(self.server_name) > 0 and len(r_bdom(rules_of(self, rule)[self.g_j], values.v)) > 0, "
+            "        result == (self.url_scheme if len(self.url_scheme) > 0 else 'http') + '://' + "
+            "        host_of(self, r_bdom(rules_of(self, rule)[self.g_j], values.v)) + "
+            "        redirect_path(self.script_name, r_bpath(rules_of(self, rule)[self.g_j], values.v)) + "
+            "        (('?' + query_args) if len(query_args) > 0 else ''))",
+        ],
+        raises={},
+        loops={0: {"inv": ["values.v == old(values.v)", "self.g_j == -1",
+                           "forall(0, _i, lambda j: rules_of(self, rule)[j] != rule and "
+                           "       not takes(rules_of(self, rule)[j], rule, values.v, method))"],
+                   "modifies": []}},
     )
